@@ -3,6 +3,7 @@ package dbmodel
 import (
 	"bytes"
 	"context"
+	"crypto/sha256"
 	"encoding/hex"
 	"errors"
 	"fmt"
@@ -32,9 +33,27 @@ import (
 
 // DumpEntry is one key of a DB dump in canonical form.
 type DumpEntry struct {
-	Key string
-	Val string // hex of the raw bytes; notification batches are decoded (their wire form has no fixed map order)
-	Raw string
+	Key  string
+	Val  string // hex of the raw bytes (a digest when they are long); notification batches are decoded (their wire form has no fixed map order)
+	Raw  string
+	Desc string // long values: the decoded record with the value abbreviated (for messages)
+}
+
+func describeEntry(raw []byte) string {
+	se := &proto.StorageEntry{}
+	if err := se.UnmarshalVT(raw); err != nil {
+		return ""
+	}
+	v := se.Value
+	val := fmt.Sprintf("%q", v)
+	if len(v) > 48 {
+		val = fmt.Sprintf("%q...(%d bytes, sha256 %x)", v[:24], len(v), sha256.Sum256(v))
+	}
+	s := fmt.Sprintf("{value=%s ver=%d mod=%d cts=%d mts=%d", val, se.VersionId, se.ModificationsCount, se.CreationTimestamp, se.ModificationTimestamp)
+	if se.SessionId != nil {
+		s += fmt.Sprintf(" sess=%d", *se.SessionId)
+	}
+	return s + "}"
 }
 
 var termKeys = map[string]bool{"__oxia/term": true, "__oxia/term-options": true}
@@ -80,7 +99,13 @@ func DumpDB(db kv.DB) ([]DumpEntry, error) {
 		if termKeys[x.Key] {
 			continue
 		}
-		e := DumpEntry{Key: x.Key, Raw: hex.EncodeToString(x.Value)}
+		e := DumpEntry{Key: x.Key}
+		if len(x.Value) > 512 {
+			e.Raw = fmt.Sprintf("sha256:%x:%d", sha256.Sum256(x.Value), len(x.Value))
+			e.Desc = describeEntry(x.Value)
+		} else {
+			e.Raw = hex.EncodeToString(x.Value)
+		}
 		e.Val = e.Raw
 		if strings.HasPrefix(x.Key, notifPrefix) {
 			c, err := canonNotification(x.Value)
@@ -119,14 +144,12 @@ func showVal(e DumpEntry) string {
 	if e.Val != e.Raw {
 		return e.Val
 	}
+	if e.Desc != "" {
+		return e.Desc
+	}
 	raw, _ := hex.DecodeString(e.Raw)
-	se := &proto.StorageEntry{}
-	if err := se.UnmarshalVT(raw); err == nil {
-		s := fmt.Sprintf("{value=%q ver=%d mod=%d cts=%d mts=%d", se.Value, se.VersionId, se.ModificationsCount, se.CreationTimestamp, se.ModificationTimestamp)
-		if se.SessionId != nil {
-			s += fmt.Sprintf(" sess=%d", *se.SessionId)
-		}
-		return s + "}"
+	if d := describeEntry(raw); d != "" {
+		return d
 	}
 	return e.Raw
 }
@@ -182,30 +205,42 @@ func (e *LeaderEngine) LogEntries() ([]*proto.LogEntry, error) {
 // ReplayedFromWal: a new leader controller on a copy of the WAL and an empty DB: NewTerm + BecomeLeader
 // apply the whole log.  Returns the dump of its DB.
 func (e *LeaderEngine) ReplayedFromWal() ([]DumpEntry, error) {
+	d, _, err := e.ReplayedFromWalRead(nil)
+	return d, err
+}
+
+// ReplayedFromWalRead is ReplayedFromWal with a look at the replayed DB (everything still in memory:
+// nothing flushed it since the log was applied) before it is closed.
+func (e *LeaderEngine) ReplayedFromWalRead(read func(kv.DB) string) ([]DumpEntry, string, error) {
 	tmp, err := tmpDir("routes-replay")
 	if err != nil {
-		return nil, err
+		return nil, "", err
 	}
 	if err := copyTree(e.dir+"/wal", tmp+"/wal"); err != nil {
 		_ = os.RemoveAll(tmp)
-		return nil, err
+		return nil, "", err
 	}
 	r := &LeaderEngine{dir: tmp, wall: map[uint64]int{}, id: fmt.Sprintf("verif-engine-%d", engineSeq.next()), ns: e.ns, term: e.term}
 	if err := r.start(); err != nil {
 		r.Close()
-		return nil, fmt.Errorf("leading from the copied WAL: %w", err)
+		return nil, "", fmt.Errorf("leading from the copied WAL: %w", err)
 	}
 	defer r.Close()
 	// (the commit offset an RF=1 leader reports stays at the DB's old commit offset until its next write;
 	// what was applied is read from the DB)
 	db := server.VerifLeaderDB(r.lc)
 	if db == nil {
-		return nil, errors.New("the new leader has no DB")
+		return nil, "", errors.New("the new leader has no DB")
 	}
 	if c, err := db.ReadCommitOffset(); err != nil || int(c)+1 != e.next {
-		return nil, fmt.Errorf("the leader replayed the WAL up to offset %d, %d entries were logged (%v)", c, e.next, err)
+		return nil, "", fmt.Errorf("the leader replayed the WAL up to offset %d, %d entries were logged (%v)", c, e.next, err)
 	}
-	return DumpDB(db)
+	what := ""
+	if read != nil {
+		what = read(db)
+	}
+	d, err := DumpDB(db)
+	return d, what, err
 }
 
 // ---------------------------------------------------------------- a real follower, fed in process
@@ -267,6 +302,7 @@ func (s *snapStream) SendAndClose(r *proto.SnapshotResponse) error {
 
 // Follower is a real follower controller on its own WAL and DB directories.
 type Follower struct {
+	ns     string
 	id     string
 	dir    string
 	kvf    kv.Factory
@@ -283,7 +319,7 @@ func NewFollower(ns string, term int64) (*Follower, error) {
 	if err != nil {
 		return nil, err
 	}
-	f := &Follower{dir: dir, term: term}
+	f := &Follower{dir: dir, term: term, ns: ns}
 	if f.kvf, err = kv.NewPebbleKVFactory(&kv.FactoryOptions{DataDir: dir + "/db", CacheSizeMB: 1}); err != nil {
 		return nil, err
 	}
@@ -366,16 +402,25 @@ func (f *Follower) disconnect() {
 		case <-time.After(CallTimeout):
 		}
 		f.stream = nil
-		needle := []byte(fmt.Sprintf("%q:%q", "verif", f.id))
-		deadline := time.Now().Add(CallTimeout)
-		for time.Now().Before(deadline) {
-			var buf bytes.Buffer
-			_ = pprof.Lookup("goroutine").WriteTo(&buf, 1)
-			if !bytes.Contains(buf.Bytes(), needle) {
-				return
-			}
-			time.Sleep(200 * time.Microsecond)
+		f.waitStreamGoroutines()
+	}
+}
+
+// waitStreamGoroutines waits until the goroutines the controller started for replication streams whose
+// context carries this follower's label have exited.
+func (f *Follower) waitStreamGoroutines() {
+	if f.id == "" {
+		return
+	}
+	needle := []byte(fmt.Sprintf("%q:%q", "verif", f.id))
+	deadline := time.Now().Add(CallTimeout)
+	for time.Now().Before(deadline) {
+		var buf bytes.Buffer
+		_ = pprof.Lookup("goroutine").WriteTo(&buf, 1)
+		if !bytes.Contains(buf.Bytes(), needle) {
+			return
 		}
+		time.Sleep(200 * time.Microsecond)
 	}
 }
 
@@ -480,4 +525,135 @@ func (f *Follower) Feed(entries []*proto.LogEntry, from int, lag int, floor int6
 		return err
 	}
 	return f.WaitApplied(last)
+}
+
+// DB returns the database the follower currently applies to.
+func (f *Follower) DB() kv.DB { return server.VerifFollowerDB(f.fc) }
+
+// Reopen closes the follower controller (its database flushes what it holds in memory) and creates a new
+// one on the same directories: the replica as it is after a restart of its node.
+func (f *Follower) Reopen() error {
+	f.disconnect()
+	_, err := guard(func() (int, error) {
+		if err := f.fc.Close(); err != nil {
+			return 0, fmt.Errorf("Close: %w", err)
+		}
+		fc, err := server.NewFollowerController(server.Config{NotificationsRetentionTime: time.Hour}, f.ns, Shard, f.wf, f.kvf)
+		if err != nil {
+			return 0, fmt.Errorf("NewFollowerController on the same directories: %w", err)
+		}
+		f.fc = fc
+		return 0, nil
+	})
+	return err
+}
+
+// LiveDB returns the database of the running leader.
+func (e *LeaderEngine) LiveDB() kv.DB {
+	e.quiesce()
+	return server.VerifLeaderDB(e.lc)
+}
+
+// ---------------------------------------------------------------- reads demanded of every replica
+
+// CheckReads asks a replica's database what the specification recorded in `want` (a step of a behaviour:
+// the records after it, and - in a route record - probe gets and range lists with the demanded answers):
+// every record by a point get, the probes by gets with their comparison type, the ranges by List and
+// RangeScan.  Returns the first deviation ("" if none).  Full iteration (the dumps) walks the storage
+// blocks in sequence; these reads are the ones that SEEK, which is where a replica serving from flushed
+// tables can differ from one serving from memory.
+func CheckReads(db kv.DB, tm TsMap, want *Step) string {
+	if db == nil {
+		return "no database"
+	}
+	r := &DBEngine{db: db}
+	byKey := make(map[string]Rec, len(want.Recs))
+	for _, rec := range want.Recs {
+		byKey[rec.Key.S()] = rec
+	}
+	for _, rec := range want.Recs {
+		k := rec.Key.S()
+		g, err := r.Get(&proto.GetRequest{Key: k, IncludeValue: true})
+		if err != nil {
+			return fmt.Sprintf("Get(%q): %v", k, cleanErr(err))
+		}
+		if g.Status != proto.Status_OK {
+			return fmt.Sprintf("Get(%q) = %v, the specification has the record %s", k, g.Status, showRec(rec))
+		}
+		if got := RecFromGet(k, g, tm); fmt.Sprint(got) != fmt.Sprint(rec) {
+			return fmt.Sprintf("Get(%q) = %s, the specification has %s", k, showRec(got), showRec(rec))
+		}
+	}
+	for i := range want.Gets {
+		p := &want.Gets[i]
+		if len(p.N) != 0 {
+			continue // secondary-index probes are the leader's (RunProbes)
+		}
+		name := fmt.Sprintf("Get(%q, %s)", p.Key.S(), p.Cmp)
+		g, err := r.Get(&proto.GetRequest{Key: p.Key.S(), IncludeValue: true, ComparisonType: cmpTypes[p.Cmp]})
+		if err != nil {
+			return fmt.Sprintf("%s: %v (the specification demands found=%v %s)", name, cleanErr(err), p.Found, p.P.Q())
+		}
+		switch {
+		case g.Status == proto.Status_KEY_NOT_FOUND:
+			if p.Found {
+				return fmt.Sprintf("%s = KEY_NOT_FOUND, the specification demands %s", name, p.P.Q())
+			}
+		case g.Status != proto.Status_OK:
+			return fmt.Sprintf("%s: status %v", name, g.Status)
+		default:
+			k := p.Key.S()
+			if g.Key != nil {
+				k = *g.Key
+			}
+			if !p.Found {
+				return fmt.Sprintf("%s = %q, the specification demands KEY_NOT_FOUND", name, k)
+			}
+			if k != p.P.S() {
+				return fmt.Sprintf("%s = %q, the specification demands %s", name, k, p.P.Q())
+			}
+			if rec, ok := byKey[k]; ok {
+				if got := RecFromGet(k, g, tm); fmt.Sprint(got) != fmt.Sprint(rec) {
+					return fmt.Sprintf("%s = %s, the specification has %s", name, showRec(got), showRec(rec))
+				}
+			}
+		}
+	}
+	for i := range want.Lists {
+		l := &want.Lists[i]
+		if len(l.N) != 0 {
+			continue
+		}
+		name := fmt.Sprintf("[%q,%q)", l.S.S(), l.E.S())
+		ks, err := r.List(&proto.ListRequest{StartInclusive: l.S.S(), EndExclusive: l.E.S()})
+		if err != nil {
+			return fmt.Sprintf("List%s: %v", name, cleanErr(err))
+		}
+		wantKs := make([]string, len(l.Ps))
+		for j, k := range l.Ps {
+			wantKs[j] = k.S()
+		}
+		if fmt.Sprintf("%q", ks) != fmt.Sprintf("%q", wantKs) {
+			return fmt.Sprintf("List%s = %q, the specification demands %q", name, ks, wantKs)
+		}
+		gs, err := r.Scan(&proto.RangeScanRequest{StartInclusive: l.S.S(), EndExclusive: l.E.S()})
+		if err != nil {
+			return fmt.Sprintf("RangeScan%s: %v", name, cleanErr(err))
+		}
+		got := make([]string, len(gs))
+		for j, g := range gs {
+			got[j] = g.GetKey()
+		}
+		if fmt.Sprintf("%q", got) != fmt.Sprintf("%q", wantKs) {
+			return fmt.Sprintf("RangeScan%s = %q, the specification demands %q", name, got, wantKs)
+		}
+		for _, g := range gs {
+			if rec, ok := byKey[g.GetKey()]; ok {
+				if x := RecFromGet(g.GetKey(), g, tm); fmt.Sprint(x) != fmt.Sprint(rec) {
+					return fmt.Sprintf("RangeScan%s returns %s, the specification has %s", name, showRec(x), showRec(rec))
+				}
+			}
+		}
+	}
+	return ""
 }
